@@ -250,6 +250,56 @@ fn check_perms4(g: &Graph) -> Acc {
     acc
 }
 
+/// sparse 5-argument frameworks under all 120 argument permutations x 2 attack orders, for the
+/// range-based semantics (whose search order follows the declaration order)
+fn check_perms5_range(g: &Graph) -> Acc {
+    let mut acc = Acc::default();
+    let ra = RefAnswers::new(g);
+    if ra.ext(Sem::STG).len() >= 2 {
+        acc.nontrivial += 1;
+    }
+    let mut qs = vec![];
+    for sem in [Sem::SST, Sem::STG] {
+        for kind in [QKind::DC, QKind::DS] {
+            let enc = *encoder_menu(kind, sem, false).first().unwrap();
+            for a in 0..g.n {
+                qs.push(Query { kind, sem, args: vec![a], cert: false, enc });
+            }
+        }
+    }
+    let m = g.att.len();
+    for perm in permutations(g.n) {
+        for rev in [false, true] {
+            let lines: Vec<usize> = if rev { (0..m).rev().collect() } else { (0..m).collect() };
+            let p = Pres { perm: perm.clone(), lines, apx: false, desc: format!("perm={:?} attacks_reversed={}", perm, rev) };
+            acc.presentations += 1;
+            let outs = answers(&build_iccma(g, &p), &qs);
+            for (q, o) in qs.iter().zip(outs.iter()) {
+                acc.queries += 1;
+                let bad = match o {
+                    Ok(out) => {
+                        let e = judge(&ra, q, out);
+                        if e.is_empty() {
+                            None
+                        } else {
+                            Some(format!("{:?} -- observed {}", e, out.describe()))
+                        }
+                    }
+                    Err(pn) => Some(format!("panic: {}", pn)),
+                };
+                if let Some(msg) = bad {
+                    acc.add(
+                        format!("scope=small;what=presentation;problem={}", q.problem()),
+                        format!("{} {:?} on {} presented as [{}]: {}", q.problem(), q.args, g.describe(), p.desc, msg),
+                        json!({"engine": "presentation", "graph": g.to_json(), "perm": p.perm, "lines": p.lines, "apx": false, "query": q.to_json()}),
+                    );
+                }
+            }
+        }
+    }
+    acc
+}
+
 /// locality and encoder-independence on frameworks that reach the hybrid encoder's auxiliary
 /// branch: statuses on t must equal statuses on t united with a copy of another such framework,
 /// for every selectable encoder (the encoder object is used once per component within a query)
@@ -986,6 +1036,19 @@ pub fn run(tier: Tier) -> i32 {
     rep.evaluations += acc.queries;
     rep.distinct_nontrivial += acc.nontrivial;
     rep.extra.insert("small_scope_4_arguments".into(), json!({"isomorphism_classes": g4.len(), "presentations (24 permutations x 2 attack orders)": acc.presentations, "queries": acc.queries}));
+    for (_, (n, v)) in acc.violations {
+        rep.n_violations += n - 1;
+        rep.add_violation(v);
+    }
+    // sparse 5-argument frameworks, all 120 permutations, range-based semantics
+    let g5: Vec<Graph> = crate::universe::iso_representatives_sparse(5, if thorough { 7 } else { 6 }).into_iter().filter(|g| !RefAnswers::new(g).ext(Sem::ST).is_empty() == false).collect();
+    let acc = g5.par_iter().with_max_len(1).map(check_perms5_range).reduce(Acc::default, Acc::merge);
+    rep.states += acc.presentations;
+    rep.transitions += acc.queries;
+    rep.traces += acc.queries;
+    rep.evaluations += acc.queries;
+    rep.distinct_nontrivial += acc.nontrivial;
+    rep.extra.insert("small_scope_5_arguments_range_semantics".into(), json!({"isomorphism_classes_without_stable_extension": g5.len(), "presentations (120 permutations x 2 attack orders)": acc.presentations, "queries (DC/DS-SST/STG on every argument)": acc.queries}));
     for (_, (n, v)) in acc.violations {
         rep.n_violations += n - 1;
         rep.add_violation(v);
